@@ -254,8 +254,9 @@ def only_formula_cells_differ(e, a, b):
 
 
 def only_trigger_cells_of_readded_rows(e, out, a, b):
-  """Every differing cell sits in a DATA column that carries a (default/trigger) formula, in a row that the bundle
-  removed and the undo re-added (the re-adding BulkAddRecord re-runs the formula over the restored value)."""
+  """Every differing cell sits in a row that the bundle removed and the undo re-added, in a DATA column that carries a
+  (default/trigger) formula (the re-adding BulkAddRecord re-runs the formula over the restored value) or in a
+  formula column (derived; it may read such a cell); at least one of the former."""
   if set(a) != set(b):
     return False
   removed = collections.defaultdict(set)
@@ -276,7 +277,11 @@ def only_trigger_cells_of_readded_rows(e, out, a, b):
       for rid, x, y in zip(a[t]['ids'], a[t]['cols'][c], b[t]['cols'][c]):
         if json.dumps(x, sort_keys=True, default=repr) != json.dumps(y, sort_keys=True, default=repr):
           col = sch.columns.get(c) if sch is not None else None
-          if col is None or col.isFormula or not col.formula or not (t in whole or rid in removed[t]):
+          if col is None or not (t in whole or rid in removed[t]):
+            return False
+          if col.isFormula:
+            continue                # a formula cell of a re-added row: derived (it may read the re-run trigger cell)
+          if not col.formula:
             return False
           n += 1
   return n > 0
@@ -390,8 +395,29 @@ class PendGen(histgen.HistGen):
     rw = r.choice([0, 0, 1, 2, 2])
     deps = ['L', x['id']] if (x and rw == 0 and r.random() < 0.5) else None
     self.pend(t['tableId'], cid, 1)
+    if x and r.random() < 0.3:
+      # a counter: the result depends on the cell's own value, so running the trigger once more is visible
+      rw = r.choice([0, 0, 2])
+      return ['AddColumn', t['tableId'], cid, {'type': r.choice(['Int', 'Int', 'Any', 'Numeric']), 'isFormula': False,
+                                               'formula': '(value or 0) + 1', 'recalcWhen': rw,
+                                               'recalcDeps': ['L', x['id']] if rw == 0 else None}]
     return ['AddColumn', t['tableId'], cid, {'type': r.choice(['Any', 'Text', 'Int', 'Numeric']), 'isFormula': False,
                                              'formula': f, 'recalcWhen': rw, 'recalcDeps': deps}]
+
+  def reader_column(self, meta, t):
+    """A formula column that READS a data column carrying a formula; its id sorts before or after the column it
+    reads (the engine reaches the columns of a table in the order of their ids)."""
+    r = self.r
+    fds = [c for c in meta.data_cols(t['id']) if c.get('formula')]
+    if not fds:
+      return None
+    c = r.choice(fds)
+    have = {x['colId'] for x in meta.visible_cols(t['id'])}
+    cid = next((n for n in (r.choice(['Aa', 'zz']) + str(k) for k in range(1, 9)) if n not in have), None)
+    if cid is None:
+      return None
+    self.pend(t['tableId'], cid, 2)
+    return ['AddColumn', t['tableId'], cid, {'type': 'Text', 'isFormula': True, 'formula': '"r %%s" %% $%s' % c['colId']}]
 
   def replace_table_data(self, meta, t):
     """ReplaceTableData whose ids overlap the existing ones fully, partially or not at all."""
@@ -421,6 +447,10 @@ class PendGen(histgen.HistGen):
     have = [t for t in tabs if any(c.get('formula') for c in meta.data_cols(t['id']))]
     if not have or r.random() < 0.2:
       return [self.formula_data_column(meta, r.choice(tabs))]
+    if r.random() < 0.15:
+      a = self.reader_column(meta, r.choice(have))
+      if a:
+        return [a]
     t = r.choice(have)
     tid = t['tableId']
     fds = [c for c in meta.data_cols(t['id']) if c.get('formula')]
@@ -562,6 +592,47 @@ FOCUS_DOC = [
 ]
 
 
+def counter_doc(label):
+  """T.Rev is a revision counter (trigger formula (value or 0) + 1, recalcDeps=[B]); a formula column reads it; its id
+  (`label`) sorts before or after `Rev`.  Column refs: manualSort=1, B=2, Rev=3."""
+  return [
+    [['AddTable', 'T', [{'id': 'B', 'type': 'Int', 'isFormula': False, 'formula': ''},
+                        {'id': 'Rev', 'type': 'Int', 'isFormula': False, 'formula': '(value or 0) + 1'},
+                        {'id': label, 'type': 'Text', 'isFormula': True, 'formula': '"rev %s" % $Rev'}]]],
+    [['UpdateRecord', '_grist_Tables_column', 3, {'recalcWhen': 0, 'recalcDeps': ['L', 2]}]],
+    [['BulkAddRecord', 'T', [None, None, None], {'B': [1, 2, 3]}]],
+    [['UpdateRecord', 'T', 2, {'B': 20}]],
+  ]
+
+
+COUNTER_BUNDLES = [
+  [['UpdateRecord', 'T', 1, {'B': 10}]],
+  [['BulkUpdateRecord', 'T', [1, 2, 3], {'B': [10, 21, 30]}]],
+  [['AddRecord', 'T', None, {'B': 7}]],
+  [['UpdateRecord', 'T', 2, {'B': 22, 'Rev': 50}]],
+  [['AddRecord', 'T', None, {'B': 7}], ['UpdateRecord', 'T', 1, {'B': 11}]],
+  [['RemoveRecord', 'T', 2]],
+]
+
+
+def counter_search(prop, found, limit):
+  """Value-dependent trigger formulas read by a formula column that the engine evaluates before / after them."""
+  for label in ('Label', 'Zlabel'):
+    hist = counter_doc(label)
+    for b in COUNTER_BUNDLES:
+      try:
+        issues, _ = check_bundle(build(hist), copy.deepcopy(b))
+      except Exception:
+        continue
+      for p_, kind, what in issues:
+        if p_ == prop and not any(f[0] == kind for f in found):
+          found.append((kind, '[focused search, counter trigger formula read by formula column %s] %s' % (label, what),
+                        {'history': hist, 'bundle': b, 'kind': kind}))
+          if len(found) >= limit:
+            return found
+  return found
+
+
 def focused_search(kinds, prop, limit=4):
   """After a broken tie: the doc-action kinds of the disagreeing bundle, aimed at each kind of column (default-formula
   data column A, trigger-formula data column Tr, formula column F, plain data column D) of a small document, alone and
@@ -571,6 +642,9 @@ def focused_search(kinds, prop, limit=4):
           ('trigger', FOCUS_DOC + [[['ModifyColumn', 'T', 'Tr', {'recalcWhen': 2}]], [['UpdateRecord', 'T', 1, {'B': 5}]]])]
   vals = {'A': 'edited', 'Tr': 7, 'F': 7, 'D': 'q', 'B': 9}
   found = []
+  counter_search(prop, found, limit)
+  if len(found) >= limit:
+    return found
   for dname, hist in docs:
     for col in ('A', 'Tr', 'F', 'D'):
       pres = [[], [['UpdateRecord', 'T', 1, {'B': 9}]], [['AddRecord', 'T', None, {'B': 4}]]]
